@@ -21,6 +21,9 @@ def items(tier):
     # graph needs the inner derivative as a function of the outer variable
     for c in grid.nested_grid(tier):
         out.append(("vjp", c))
+    # graphs whose values are containers (tuples / lists / dicts consumed whole several times and by index)
+    for c in grid.container_grid(tier):
+        out.append(("vjp", c))
     return out
 
 
